@@ -123,10 +123,11 @@ class WalkInterp(Interp):
         return None
 
 
-def fold_init(repo, is_compressed=False, n_subsets=1, values=None):
-    """CoderState.__init__ folded by PathEval; returns the state objects of all non-raising paths (the logging-level test forks)."""
+def fold_init(repo, is_compressed=False, n_subsets=1, values=None, interp=None):
+    """CoderState.__init__ folded by PathEval; returns the state objects of all non-raising paths (the logging-level test forks).
+    With `interp` given, module-level objects are the ones that interpreter has already created (one process)."""
     init = repo.own_method('CoderState', '__init__')
-    it = WalkInterp(repo, 'Decoder')
+    it = interp or WalkInterp(repo, 'Decoder')
     res = it.run_function(init, lambda: {'self': Obj('CoderState', {}), 'is_compressed': is_compressed, 'n_subsets': n_subsets,
                                          'decoded_values_all_subsets': values}, self_class='CoderState')
     out = [r.locals['self'] for r in res if r.ok]
